@@ -113,6 +113,16 @@ fn run_path(job: &str, path: &[usize], local: &mut Local, check_leaks_now: bool,
                     }
                 }
                 if out.is_ok() && ordinal == 0 {
+                    // every integer argument over its extremes
+                    match crate::model::capi::numeric_sweep() {
+                        Ok(n) => {
+                            total += n;
+                            local.count_n("numeric-sweep-calls", n);
+                        }
+                        Err(e) => out = Err(e),
+                    }
+                }
+                if out.is_ok() && ordinal == 0 {
                     // failing calls whose message quotes long (non-ASCII) caller text
                     match crate::model::capi::long_error_sweep() {
                         Ok(n) => {
@@ -190,7 +200,7 @@ pub fn run(tier: Tier) -> i32 {
     let mut run = Run::new("C18", tier, "model_checking");
     let depth = depth_for(tier);
     run.rule = format!("the C17 search (same pool model, same operation alphabet) to depth {depth}, every transition executed by the AddressSanitizer build of the harness (leak detection on) in child processes; each history ends with the protocol's clean-up (every live handle, filter and returned string destroyed exactly once); a LeakSanitizer pass runs after each history in single-step mode and at process exit otherwise. Plus the focused machines of C17 (list, dict, grid with indices 0..4, eight key shapes, aliasing of input and output handles, exotic values with interior NUL / 210 kB strings / extreme fields) under the same monitors. Plus: in every state reached with <= {} calls, every non-destroy function (18 predicates, 29 getters, 24 checked constructors, 11 mutators / out-parameter getters, 3 filter functions) is called with each pointer parameter NULL, one at a time and all together, with every live handle as the non-null argument: documented sentinel + error pending + pool unchanged + no crash", null_state_depth());
-    run.assume("AddressSanitizer / LeakSanitizer are the monitors of each explored history (std is not instrumented; allocator interposition still sees the crate's heap misuse); plus, once per run in such a child, every text-taking entry point (from_zinc_string, from_json_string, filter_parse, make_number_with_unit, make_tz_datetime) with malformed text built from 1-/2-/3-/4-byte characters after 0..3 ASCII bytes at total sizes 60, 120, 248..262, 508..516, 1020..1030, 4092..4100 and 65 536 bytes, the error message fetched and destroyed after each");
+    run.assume("AddressSanitizer / LeakSanitizer are the monitors of each explored history (std is not instrumented; allocator interposition still sees the crate's heap misuse); plus, once per run in such a child, every integer argument over its extremes (list / grid indices 0 .. 7, 2^31, 2^32 ± 1, 2^63 ± 1, usize::MAX - 1, usize::MAX on containers of 0 / 1 / 3 entries through get / set / remove / row-at; time and date fields over 0, limits ± 1, 999 .. 1001, 2^31, u32::MAX, year i32::MIN .. i32::MAX): in range the Rust answer, out of range sentinel + message + container unchanged; and every text-taking entry point (from_zinc_string, from_json_string, filter_parse, make_number_with_unit, make_tz_datetime) with malformed text built from 1-/2-/3-/4-byte characters after 0..3 ASCII bytes at total sizes 60, 120, 248..262, 508..516, 1020..1030, 4092..4100 and 65 536 bytes, the error message fetched and destroyed after each");
     run.assume("a panic inside an extern \"C\" function aborts the process and is observed through the child's exit status");
     crate::engine::quiet_panics();
     let exe = asan_exe();
@@ -216,6 +226,7 @@ pub fn run(tier: Tier) -> i32 {
     if run.stats.fails.is_empty() {
         run.require(run.counter("null-calls") > 1000, "null sweep too small");
         run.require(run.counter("long-error-calls") > 5000, "long error message sweep missing");
+        run.require(run.counter("numeric-sweep-calls") > 1000, "numeric argument sweep missing");
         run.require(run.stats.transitions > 10_000, "too few histories");
     }
     run.stats.samples = vec![json!({"history": ["FilterParse(a)", "Make(0, Zinc(grid))", "Make(1, Init)", "MatchAll(0, 1)", "cleanup"]}), json!({"null_call": "haystack_value_get_dict_entry(h, NULL, &out)"})];
